@@ -6,13 +6,13 @@ Record case := { k_in : bytes; k_obs : bytes }.
 
 (* an undecodable case file is a harness bug and must not pass silently: VDiff *)
 Definition check (k : case) : verdict :=
-  match decode_input (k_in k), decode_obs (k_obs k) with
+  match decode_input2 (k_in k), decode_obs2 (k_obs k) with
   | Some (rts, snap, evs), Some tr =>
-      if legal snap evs then
-        mk_verdict (match run rts snap evs with
-                    | Some m => Some (list_eqb obs_eqb m tr)
+      if legal2 snap evs then
+        mk_verdict (match run2 rts snap evs with
+                    | Some m => Some (list_eqb obs2_eqb m tr)
                     | None => None
-                    end) (oracle snap evs tr)
+                    end) (oracle2 snap evs tr)
       else VSkip        (* not a history Tor can emit: outside the quantifier, never generated *)
   | _, _ => VDiff
   end.
